@@ -105,7 +105,11 @@ func ValidateCost(operationName string, variableValues map[string]interface{}, m
 							if def.Cost != nil {
 								fieldCost = def.Cost(costContext)
 							}
-							cost = checkedNonNegativeAdd(cost, checkedNonNegativeMultiply(multiplier, fieldCost.Resolver))
+							if fieldCost.Resolver != 0 {
+								// A resolver that costs nothing adds nothing, even when the
+								// multiplier is too large to represent.
+								cost = checkedNonNegativeAdd(cost, checkedNonNegativeMultiply(multiplier, fieldCost.Resolver))
+							}
 							if fieldCost.Multiplier > 1 {
 								newMultiplier = checkedNonNegativeMultiply(multiplier, fieldCost.Multiplier)
 							}
